@@ -10,6 +10,7 @@ package rtpkg
 // collections identified, error <=> error). Vectors on which the Go function panics are out of scope.
 
 import (
+	"crypto/sha256"
 	"encoding/json"
 	"fmt"
 	"math/rand"
@@ -51,7 +52,20 @@ type c11Case struct {
 	Args []string `json:"args"` // %#v of each argument (for people)
 	Raw  []any    `json:"raw"`  // JSON form for replay where possible
 	Seed string   `json:"stream"`
-	Idx  int      `json:"index"`
+	Idx  int      `json:"index"` // position in the row's vector sequence (negative = directed vector)
+	Run  int64    `json:"verif_seed"`
+}
+
+// randFor is vh.Rand for an explicit seed (a replay regenerates the vector sequence of the recorded run).
+func randFor(seed int64, stream string) *rand.Rand {
+	h := sha256.Sum256([]byte(fmt.Sprintf("%d/%s", seed, stream)))
+
+	var s int64
+	for i := 0; i < 8; i++ {
+		s = s<<8 | int64(h[i])
+	}
+
+	return rand.New(rand.NewSource(s))
 }
 
 // callGo calls the reference with args; panics are reported, not propagated.
@@ -339,10 +353,6 @@ func TestC11(t *testing.T) {
 		r.Inconcl("rows for functions the packages no longer declare: " + strings.Join(stale, " "))
 	}
 
-	n := vh.N(200, 20000)
-	only := os.Getenv("C11_ONLY")
-	violated := map[string]bool{}
-
 	// replay
 	var replay *c11Case
 
@@ -353,8 +363,12 @@ func TestC11(t *testing.T) {
 		}
 	}
 
+	n := vh.N(200, 20000)
+	only := os.Getenv("C11_ONLY")
+	violated := map[string]bool{}
+
 	// thorough tier: every row a second time under strict type checking (same arguments, exact types)
-	if vh.Tier() == "thorough" || os.Getenv("C11_STRICT") != "" {
+	if vh.Tier() == "thorough" || os.Getenv("C11_STRICT") != "" || (replay != nil && strings.HasSuffix(replay.Fn, "@strict")) {
 		base := len(rows)
 		for i := 0; i < base; i++ {
 			c := rows[i]
@@ -434,6 +448,10 @@ func TestC11(t *testing.T) {
 
 		stream := "c11/" + rw.Name
 		rng := vh.Rand(stream)
+
+		if replay != nil && replay.Run != 0 {
+			rng = randFor(replay.Run, stream)
+		}
 		count := n
 
 		if nargs == 0 {
@@ -506,7 +524,7 @@ func TestC11(t *testing.T) {
 			}
 
 			r.Violate(vh.Violation{Key: key, Desc: rw.Name + "(" + strings.Join(argText, ", ") + "): " + detail,
-				Case: c11Case{Fn: rw.Name, Args: argText, Seed: stream, Idx: k}, Expected: "what the Go function returns", Observed: vh.Trunc(detail, 500)})
+				Case: c11Case{Fn: rw.Name, Args: argText, Seed: stream, Idx: k, Run: vh.Seed()}, Expected: "what the Go function returns", Observed: vh.Trunc(detail, 500)})
 		}
 
 		r.Count("vectors.evaluated", int64(evaluated))
@@ -535,5 +553,3 @@ func TestC11(t *testing.T) {
 		t.Fatal(err)
 	}
 }
-
-var _ = rand.Int
